@@ -111,6 +111,8 @@ def show(t):
         return "(%s)" % ", ".join(show(x) for x in t[1])
     if t[0] == "ALIAS":
         return "<generated class : %s>" % show(t[1])
+    if t[0] == "VAR":
+        return "<generated record with the members %s>" % ", ".join(t[1])
     if t[0] == "LIT":
         return "<generated record {%s}>" % "; ".join("%s%s %s%s" % (show(x), "?" if nl else "", k, " [Ignore]" if ig else "") for k, x, nl, ig in t[1])
     return repr(t)
@@ -208,8 +210,16 @@ class Search:
             its = [i for i in t["items"] if not self.is_null(i)]
             if len(its) == 1:
                 return self.cs_of(its[0])
-            if not its or self.variant_literals(its):
+            if not its:
                 return None
+            if self.variant_literals(its):
+                # merged by the plugin into ONE record: exactly one data member per property name of every alternative (names only)
+                names = []
+                for l in its:
+                    for p in l["value"]["properties"]:
+                        if p["name"] not in names:
+                            names.append(p["name"])
+                return ("VAR", names)
             sub = [self.cs_of(i) for i in its]
             return None if any(x is None for x in sub) else ("G", "OrType", sub)
         return None
@@ -248,6 +258,24 @@ class Search:
                 return "%s has no base type, expected : %s" % (v, show(exp[1]))
             bt, bnl = parse_cs_type(decl.group(2))
             return self.match(exp[1], bt) if not bnl else "%s has a nullable base" % v
+        if exp[0] == "VAR":
+            if "[DataContract]" not in decl.group(1):
+                return "merged record %s lacks [DataContract]" % v
+            mems = self.members(vsrc)
+            ctor = self.ctor(vsrc)
+            if sorted(mems) != sorted(exp[1]) or any(len(l) > 1 for l in mems.values()):
+                return "%s declares data members %s, the alternatives of the union have %s" % (v, sorted(mems), sorted(exp[1]))
+            for k in exp[1]:
+                m = mems[k][0]
+                # the constructor of a merged record starts with a braced guard (`if (all null) { throw ... }`): look for the assignment
+                # `Ident = <parameter>;` in the constructor text up to the first member declaration
+                head = vsrc.split("[DataMember", 1)[0]
+                if "[JsonConstructor]" in head:
+                    if not re.search(r"\b%s\s*=\s*\w+\s*;" % re.escape(m["ident"]), head):
+                        return "%s.%s: not assigned in the [JsonConstructor]" % (v, k)
+                elif not m["settable"]:
+                    return "%s.%s: no [JsonConstructor] and no set/init accessor" % (v, k)
+            return None
         if exp[0] == "LIT":
             self.counts["literal_classes"] += 1
             if "[DataContract]" not in decl.group(1):
